@@ -286,6 +286,22 @@ def run(ctx):
                     for entry in ("constructor", "setter", "update"):
                         check([(first, "constructor", sch, doc, tag), (second, entry, sch, doc, tag)])
                         dist["subclass_then_other_class"] += 1
+    # systematically: a rule set in one of the documented shorthand spellings, submitted as a field's rules and nested in
+    # every container position, through every pair of entry points, in both orders (what is cached must be the expanded form)
+    raws = [{'allow unknown': True}, {'type': 'dict', 'require all': True}, {'purge unknown': True}, {'anyof_type': ['integer', 'string']},
+            {'keyschema': {'type': 'string'}}, {'type': 'dict', 'valueschema': {'type': 'integer'}}]
+    wrappers = [lambda R: {'o': {'type': 'dict', 'schema': {'f': R}}}, lambda R: {'o': {'valuesrules': R}}, lambda R: {'o': {'anyof': [R, {'type': 'integer'}]}},
+                lambda R: {'o': {'type': 'list', 'items': [R]}}, lambda R: {'o': {'type': 'list', 'schema': R}}, lambda R: {'o': {'allow_unknown': R}}]
+    eps = ["constructor", "setter", "validate-arg", "update", "setitem", "allow_unknown"]
+    for R in raws:
+        for w in wrappers:
+            for e1 in eps:
+                for e2 in (eps if thorough else rng.sample(eps, 3)):
+                    first = ("Validator", e1, {'f': copy.deepcopy(R)}, doc, 'spelling-twin')
+                    second = (rng.choice(["Validator", "Validator", "SubRule"]), e2, w(copy.deepcopy(R)), doc, 'spelling-twin')
+                    check([first, second])
+                    check([second, first])
+                    dist["spelling_twin_pairs"] += 2
     # all ordered pairs of the twin families through the constructor, per class pair
     tw = [p for p in pool_schemas if p[1] != 'plain' and p[1] != 'corrupt']
     pairs = list(itertools.permutations(range(len(tw)), 2))
@@ -300,7 +316,7 @@ def run(ctx):
             "samples": samples, "distribution": dict(dist), "exhaustive": thorough,
             "rule": "submission histories over Validator, PoolValidator and two subclasses (extra rule / extra type): valid schemas, single-point corruptions, "
                     "type-twins (equal constraints of different Python types), context-twins (one rule set as bulk rule set / *of definition / field rules / "
-                    "under the key 'turing'), subclass-only schemas, interleaved with clear_caches(), through constructor, schema setter, per-call schema, "
+                    "under the key 'turing'), spelling-twins (a shorthand-spelled rule set as field rules and nested in every container position), subclass-only schemas, interleaved with clear_caches(), through constructor, schema setter, per-call schema, "
                     "update, item assignment and the allow_unknown setter; each history run warm and cold (caches cleared before every submission) and "
                     "compared on acceptance and on a probe validation; %s ordered pairs of the twin families. Every history is distinct by construction." % (
                         "all" if thorough else "1500 sampled")}
